@@ -201,31 +201,29 @@ class Mon:
                 self.v("cb-after-close", f"signal callback on closed h{h}"); return
             if x["loop"] != L:
                 self.v("wrong-loop", f"h{h} (loop {x['loop']}) called while running loop {L}")
-            # locate the oldest valid expectation for h on this loop
-            found = None; stale_same = False
+            # h's outstanding expectations in FIFO order: a valid one is consumed; one of an earlier
+            # incarnation on the same signum is what the known defect L10 turns into a callback; any
+            # other stale one is read from the pipe without a callback
+            target = None
             for gi, g in enumerate(exp[L]):
                 for e in g:
                     if e["h"] != h or e["done"]: continue
-                    if e["inc"] == x["inc"] and x["sig"] == e["sig"] and found is None:
-                        found = (gi, e)
-                    elif e["inc"] != x["inc"] and e["sig"] == x["sig"] == sig:
-                        stale_same = True
-                if found: break
-            if found is None:
-                if stale_same:
-                    self.v(K_L10, f"h{h} got a callback for {sig} caught before it was stopped and restarted on the same signal")
-                    for g in exp[L]:
-                        for e in g:
-                            if e["h"] == h and not e["done"]: e["done"] = True; break
-                        else: continue
-                        break
-                elif not x["sig"] or x["closing"]:
+                    valid = e["inc"] == x["inc"] and x["sig"] == e["sig"]
+                    if valid or (e["sig"] == x["sig"] == sig):
+                        target = (gi, e, valid); break
+                    e["done"] = True
+                if target: break
+            if target is None:
+                if not x["sig"] or x["closing"]:
                     self.v("cb-after-stop", f"h{h} got a callback for {sig} after stop/close returned")
                 else:
                     self.v("cb-without-delivery", f"h{h} got a callback for {sig} with no delivery outstanding (watching {x['sig']})")
             else:
-                gi, e = found
-                if e["sig"] != sig: self.v("cb-signum", f"h{h} called with {sig}, watching {e['sig']}")
+                gi, e, valid = target
+                if not valid:
+                    self.v(K_L10, f"h{h} got a callback for {sig} caught before it was stopped and restarted on the same signal")
+                elif e["sig"] != sig:
+                    self.v("cb-signum", f"h{h} called with {sig}, watching {e['sig']}")
                 e["done"] = True
                 # everything in earlier groups has been read from the pipe before this message
                 for g in exp[L][:gi]:
@@ -305,12 +303,15 @@ class Mon:
                     elif f[:2] == ["cb", "close"]:
                         if phase == "dispatch": end_of_dispatch(L); phase = "closing"
                         on_close_cb(L, int(f[2][1:]), None)
-                    elif f[0] in ("raised", "raise") and w[0] == "runraise" and phase == "dispatch":
-                        end_of_dispatch(L); phase = "closing"
+                    elif f[0] in ("raised", "raise") and w[0] == "runraise" and phase == "check":
+                        phase = "closing"
                         if o == "raise skipped-default" and exp_disp(int(w[2])) != "dfl":
                             deferred = int(w[2])       # judged after the observation (a known finding may explain it)
                         else:
                             raise_sig(int(w[2]), o, None)
+                    elif o == "check" and w[0] == "runraise" and phase == "dispatch":
+                        end_of_dispatch(L); phase = "check"
+                        check_obs(cmd + " (poll phase)")
                     else:
                         self.v("protocol", f"unexpected line in run: {o}")
                 if alive and phase == "dispatch":
